@@ -169,6 +169,10 @@ func (x *c10Run) e2eBuild(o *c10Origin, id, dir string) (*Client, *Request) {
 			k := x.iter - 1
 			x.log = append(x.log, "W"+strconv.Itoa(rq.RetryAttempt)+"[?]") // filled in from the origin's capture
 			x.wires = append(x.wires, "")
+			if len(x.wires) > len(x.tc.script)+3 { // the script always ends the loop; do not spin forever on a broken one
+				x.runaway = true
+				panic("c10: runaway retry loop")
+			}
 			resp, err := rt.RoundTrip(rq)
 			var e *c10Err
 			if err != nil && !errors.As(err, &e) {
@@ -312,6 +316,18 @@ func TestVerif_C10_e2e(t *testing.T) {
 			s.Count("retried:" + mode)
 		}
 		recs = append(recs, c10Rec{tc: tc, obs: x.obs, impl: x.answer(), ok: ok, why: why, nontriv: len(caps) >= 2, relevant: tc.relevantBits()})
+	}
+	nRetried, nDump := 0, 0
+	for _, rc := range recs {
+		if rc.nontriv {
+			nRetried++
+		}
+		if rc.tc.dump {
+			nDump++
+		}
+	}
+	if nRetried < n/4 || nDump == 0 {
+		t.Errorf("e2e generator: only %d of %d calls retried, %d with dump on", nRetried, n, nDump)
 	}
 	c10Finish(s, recs)
 }
